@@ -189,7 +189,7 @@ def _definite_path(self, fn, place):
     il, dst = self.E._resolve(body, self.E.val[fn], place)
     if il:
         return None
-    return M.MustWrite._definite(dst)
+    return M.MustWrite._definite({M.plain(p) for p in dst})
 
 
 World.definite_path = _definite_path
